@@ -3,6 +3,7 @@
 #define VERIF_PRELUDE_H
 #include <stdint.h>
 #include <stddef.h>
+#include <string.h>
 
 #ifdef VERIF_NATIVE
   /* native build: used by the fidelity differential and replay */
@@ -21,5 +22,25 @@
 #else
   #define VERIF_ASSERT_FAIL(msg) (__CPROVER_assert(0, msg), __CPROVER_assume(0))
   #define VERIF_UNREACHABLE() (__CPROVER_assert(0, "unreachable reached"), __CPROVER_assume(0))
+  /* libc memory functions as plain byte loops (trusted stubs). CBMC 6.11's built-in memset model with a symbolic size
+   * (array_set/array_replace) was measured to clear only part of the range under dfcc (DESIGN.md); the loops are exact
+   * and bounded by the unit's --unwind. Units with large symbolic sizes replace these by contracts instead. */
+  #ifndef VERIF_KEEP_LIBC_MEM
+  static inline void* verif_memset(void* d, int c, size_t n) { for (size_t i = 0; i < n; i++) ((unsigned char*)d)[i] = (unsigned char)c; return d; }
+  static inline void* verif_memcpy(void* d, const void* s, size_t n) { for (size_t i = 0; i < n; i++) ((unsigned char*)d)[i] = ((const unsigned char*)s)[i]; return d; }
+  static inline void* verif_memmove(void* d, const void* s, size_t n) {
+    if ((unsigned char*)d <= (const unsigned char*)s) { for (size_t i = 0; i < n; i++) ((unsigned char*)d)[i] = ((const unsigned char*)s)[i]; }
+    else { for (size_t i = n; i > 0; i--) ((unsigned char*)d)[i - 1] = ((const unsigned char*)s)[i - 1]; }
+    return d;
+  }
+  static inline int verif_memcmp(const void* a, const void* b, size_t n) {
+    for (size_t i = 0; i < n; i++) { unsigned char x = ((const unsigned char*)a)[i], y = ((const unsigned char*)b)[i]; if (x != y) return x < y ? -1 : 1; }
+    return 0;
+  }
+  #define memset verif_memset
+  #define memcpy verif_memcpy
+  #define memmove verif_memmove
+  #define memcmp verif_memcmp
+  #endif
 #endif
 #endif
